@@ -525,7 +525,7 @@ func runProgram(r *vh.Runner, c *vh.Case, i int, prog program, realTime bool) {
 							select {
 							case <-wfcDone:
 								return
-							case <-time.After(time.Second):
+							case <-time.After(250 * time.Millisecond):
 							}
 							e.mu.Lock()
 							mine, myAt := e.closeRet, e.closeAt
@@ -557,7 +557,9 @@ func runProgram(r *vh.Runner, c *vh.Case, i int, prog program, realTime bool) {
 						if theirAt.After(from) {
 							from = theirAt
 						}
-						if d := time.Since(from); d > bound && !realTime {
+						// the watcher decides: it took its snapshot iff the call was still
+						// open when the bound (from the later Close) had expired
+						if d := time.Since(from); snapMine != "" && !realTime {
 							violate("C16:waitforclose-later-than-bound-after-both-ends-closed:"+kind(e)+":"+snapMine+":peer-"+snapPeer+":"+prog.Net.Class, map[string]any{"state_at_bound": snapMine, "peer_state_at_bound": snapPeer,"end": e.name, "took_after_both_closed": d.String(), "bound": bound.String(), "keepalive": prog.KeepAlive,
 								"my_close_at": myAt.Sub(start).String(), "peer_close_at": theirAt.Sub(start).String(), "wait_started_at": cl.start.Sub(start).String(), "returned_at": time.Since(start).String(),
 								"this_end": info(e.tube), "peer_end": info(e.peer.tube)})
